@@ -131,6 +131,9 @@ func NewDriver(
 	}
 
 	d := &Driver{
+		// carry over the logger the generic driver ended up with (WithLogger/WithDefaultLogger
+		// only apply to the generic driver), otherwise the netconf driver itself logs nowhere
+		Logger:        gd.Logger,
 		TransportType: gd.TransportType,
 		Transport:     gd.Transport,
 		Channel:       gd.Channel,
